@@ -836,6 +836,415 @@ fn blocks_oracle(lay: &Layout, acc: &[E]) -> Vec<String> {
 }
 
 // ------------------------------------------------------------------------------------------------
+// the bloom filter (sst/src/sbbf.rs) from the hash word on: `bloom …` requests
+
+fn bloom_err_class(m: &str) -> &'static str {
+    match m {
+        "bloom filter must have a non-zero length" => "empty",
+        "bloom filter must be a multiple of 32 in length" => "not-multiple-of-32",
+        "block must be exactly 32 bytes" => "block-not-32",
+        _ => "other",
+    }
+}
+
+/// `((x >> 32) * n) >> 32` in 128-bit arithmetic (the generator's own, to aim items at one block)
+fn bloom_block_of(word: u64, nblocks: u64) -> u64 {
+    ((((word >> 32) as u128) * nblocks as u128) >> 32) as u64
+}
+
+fn bloom_words(ws: &[u64]) -> String {
+    if ws.is_empty() {
+        "-".into()
+    } else {
+        ws.iter().map(|w| w.to_string()).collect::<Vec<_>>().join(",")
+    }
+}
+
+/// the serialised filter cut or extended (with `a5`) to `len` bytes
+fn bloom_resize(bytes: &[u8], len: usize) -> Vec<u8> {
+    let mut v = bytes.to_vec();
+    v.resize(len, 0xa5);
+    v
+}
+
+/// `Filter::try_from` on `bytes`: (rendering, oracle complaints)
+fn bloom_parse(bytes: &[u8], fails: &mut Vec<(String, String)>) -> (String, Option<sst::sbbf::Filter>) {
+    use sst::sbbf::Filter;
+    let b2 = bytes.to_vec();
+    match guarded(move || Filter::try_from(&b2[..])) {
+        Err(m) => {
+            fails.push(("bloom-panic".into(), format!("try_from on {} bytes panicked: {}", bytes.len(), m)));
+            ("panic".into(), None)
+        }
+        Ok(Err(m)) => {
+            let class = bloom_err_class(m);
+            let want_err = bytes.is_empty() || bytes.len() % 32 != 0;
+            let want = if bytes.is_empty() { "empty" } else { "not-multiple-of-32" };
+            if !want_err || class != want {
+                fails.push(("bloom-tryfrom-class".into(), format!("try_from on {} bytes answers error {}", bytes.len(), class)));
+            }
+            (format!("err:{}", class), None)
+        }
+        Ok(Ok(g)) => {
+            let n = g.approximate_size() / 32;
+            let g2 = g.clone();
+            let back = guarded(move || g2.to_bytes()).unwrap_or_default();
+            if bytes.is_empty() || bytes.len() % 32 != 0 {
+                fails.push(("bloom-tryfrom-class".into(), format!("try_from accepts {} bytes", bytes.len())));
+            } else if n != bytes.len() / 32 || back != bytes {
+                fails.push(("bloom-reserialise".into(), format!("try_from on {} bytes gives {} blocks / other bytes back", bytes.len(), n)));
+            }
+            (format!("ok{}/{}", n, show_bytes(&back)), Some(g))
+        }
+    }
+}
+
+fn bloom_checks(f: &sst::sbbf::Filter, items: &[Vec<u8>], fails: &mut Vec<(String, String)>) -> (String, Vec<Option<bool>>) {
+    if items.is_empty() {
+        return ("-".into(), vec![]);
+    }
+    let mut s = String::new();
+    let mut v = vec![];
+    for it in items {
+        match guarded(Aus(|| f.check(it))) {
+            Ok(true) => {
+                s.push('1');
+                v.push(Some(true));
+            }
+            Ok(false) => {
+                s.push('0');
+                v.push(Some(false));
+            }
+            Err(m) => {
+                s.push('!');
+                v.push(None);
+                fails.push(("bloom-panic".into(), format!("check({}) panicked: {}", hex(it), m)));
+            }
+        }
+    }
+    (s, v)
+}
+
+fn bloom_item(rng: &mut Rng, style: u64) -> Vec<u8> {
+    match style {
+        0 => {
+            let n = rng.below(21) as usize;
+            rng.bytes(n)
+        }
+        1 => {
+            let n = rng.below(4) as usize;
+            (0..n).map(|_| *rng.pick(&ALPHA)).collect()
+        }
+        _ => {
+            let n = 1 + rng.below(12) as usize;
+            (0..n).map(|_| b'a' + rng.below(26) as u8).collect()
+        }
+    }
+}
+
+const BLOOM_SIZES: [u32; 20] = [0, 1, 7, 8, 9, 248, 249, 250, 255, 256, 257, 504, 505, 506, 761, 762, 8191, 8192, 8193, 65535];
+
+fn bloom_stream(args: &Args, rec: &mut Recorder, n_bloom: u64) {
+    use sst::sbbf::Filter;
+    for i in 0..n_bloom {
+        if !rec.wants() {
+            rec.skip();
+            continue;
+        }
+        let mut rng = Rng::for_case(args.seed, 5, i);
+        let mut fails: Vec<(String, String)> = vec![];
+        rec.count("bloom");
+        match i % 8 {
+            // ---- Filter::new: the block count for a requested number of bits -------------------
+            0 => {
+                let big: [u32; 12] = [1 << 16, (1 << 16) + 249, (1 << 16) + 250, 1 << 20, (1 << 20) - 7, (1 << 20) - 6, (1 << 24) - 263, (1 << 24) - 262, (1 << 24) - 7, (1 << 24) - 6, (1 << 24) - 1, 1 << 24];
+                let size: u32 = if args.thorough && i == 8 {
+                    u32::MAX
+                } else if args.thorough && i == 16 {
+                    u32::MAX - 6
+                } else if args.thorough && i == 24 {
+                    u32::MAX - 7
+                } else {
+                    match rng.below(4) {
+                        0 => *rng.pick(&BLOOM_SIZES),
+                        1 => *rng.pick(&big),
+                        2 => rng.below(70000) as u32,
+                        _ => rng.below(if args.thorough { 1 << 28 } else { 1 << 24 }) as u32,
+                    }
+                };
+                let obs = match guarded(move || Filter::new(size).approximate_size()) {
+                    Ok(sz) => {
+                        let n = sz / 32;
+                        if sz % 32 != 0 || n < 1 || (n as u64) * 256 < size as u64 {
+                            fails.push(("bloom-size".into(), format!("Filter::new({}) has {} bytes", size, sz)));
+                        }
+                        format!("n={}", n)
+                    }
+                    Err(m) => {
+                        fails.push(("bloom-panic".into(), format!("Filter::new({}) panicked: {}", size, m)));
+                        "panic".into()
+                    }
+                };
+                rec.count("bloom.new");
+                if size >= 1 << 24 {
+                    rec.count("bloom.new.size_2^24_or_more");
+                }
+                if size >= u32::MAX - 7 {
+                    rec.count("bloom.new.size_near_u32_max");
+                }
+                let req = format!("bloom new {}", size);
+                let v = match fails.into_iter().next() {
+                    None => Verdict::Ok,
+                    Some((class, detail)) => Verdict::Fail { class, detail },
+                };
+                rec.case(&req, &obs, v, None);
+            }
+            // ---- Filter::try_from on bytes no filter wrote, then checks -------------------------
+            1 => {
+                let len = match rng.below(3) {
+                    0 => *rng.pick(&[0usize, 1, 31, 32, 33, 63, 64, 65, 95, 96, 97, 127, 128, 129, 320, 321]),
+                    1 => 32 * rng.below(9) as usize,
+                    _ => rng.below(200) as usize,
+                };
+                let bytes: Vec<u8> = match rng.below(5) {
+                    0 => vec![0xff; len],
+                    1 => vec![0x00; len],
+                    2 => (0..len).map(|_| if rng.chance(1, 6) { 1u8 << rng.below(8) } else { 0 }).collect(),
+                    3 => (0..len).map(|_| if rng.chance(1, 6) { !(1u8 << rng.below(8)) } else { 0xff }).collect(),
+                    _ => rng.bytes(len),
+                };
+                let items: Vec<Vec<u8>> = (0..6).map(|_| bloom_item(&mut rng, 0)).collect();
+                let words: Vec<u64> = items.iter().map(|it| Filter::defer_insert(it)).collect();
+                let (mut obs, g) = bloom_parse(&bytes, &mut fails);
+                if let Some(g) = g {
+                    let (c, _) = bloom_checks(&g, &items, &mut fails);
+                    obs.push_str(&format!(" c={}", c));
+                    rec.count("bloom.parse.accepted");
+                } else {
+                    rec.count("bloom.parse.refused");
+                }
+                rec.count("bloom.parse");
+                let req = format!("bloom parse {} {}", tok(&bytes), bloom_words(&words));
+                let v = match fails.into_iter().next() {
+                    None => Verdict::Ok,
+                    Some((class, detail)) => Verdict::Fail { class, detail },
+                };
+                rec.case(&req, &obs, v, None);
+            }
+            // ---- a filter built from items: bytes, checks, round trip, resized copies -----------
+            _ => {
+                let size: u32 = if i == 2 {
+                    1 << 24
+                } else {
+                    match rng.below(8) {
+                        0 | 1 | 2 => *rng.pick(&BLOOM_SIZES),
+                        3 | 4 => rng.below(2000) as u32,
+                        5 | 6 => rng.below(20000) as u32,
+                        _ => rng.below(1 << 20) as u32,
+                    }
+                };
+                let nblocks_gen = ((size.saturating_add(7) >> 8) as u64) + 1;
+                let style = rng.below(5);
+                let count = match rng.below(6) {
+                    0 => 0usize,
+                    1 => 1,
+                    2 => 2 + rng.below(6) as usize,
+                    3 | 4 => rng.below(60) as usize,
+                    _ => rng.below(301) as usize,
+                };
+                let mut items: Vec<Vec<u8>> = vec![];
+                match style {
+                    // items aimed at one block (the same 256 bits filled up)
+                    3 if nblocks_gen <= 40 => {
+                        let target = rng.below(nblocks_gen);
+                        let mut tries = 0;
+                        while items.len() < count && tries < 40000 {
+                            tries += 1;
+                            let it = bloom_item(&mut rng, 0);
+                            if bloom_block_of(Filter::defer_insert(&it), nblocks_gen) == target {
+                                items.push(it);
+                            }
+                        }
+                        rec.count("bloom.filter.items_aimed_at_one_block");
+                    }
+                    // the empty item and repeated items
+                    4 => {
+                        items.push(vec![]);
+                        for _ in 1..count.max(1) {
+                            if !items.is_empty() && rng.chance(1, 3) {
+                                let j = rng.below(items.len() as u64) as usize;
+                                items.push(items[j].clone());
+                            } else {
+                                items.push(bloom_item(&mut rng, 1));
+                            }
+                        }
+                        rec.count("bloom.filter.with_empty_and_repeated_items");
+                    }
+                    st => {
+                        for _ in 0..count {
+                            items.push(bloom_item(&mut rng, st % 3));
+                        }
+                    }
+                }
+                // queries: half inserted, half fresh
+                let nq = 2 + rng.below(20) as usize;
+                let mut queries: Vec<(Vec<u8>, bool)> = vec![];
+                for q in 0..nq {
+                    if q % 2 == 0 && !items.is_empty() {
+                        let j = rng.below(items.len() as u64) as usize;
+                        queries.push((items[j].clone(), true));
+                    } else {
+                        let mut it = bloom_item(&mut rng, if style == 4 { 1 } else { style % 3 });
+                        let mut guard = 0;
+                        while items.contains(&it) && guard < 50 {
+                            it = bloom_item(&mut rng, 0);
+                            it.push(0x7f);
+                            guard += 1;
+                        }
+                        let inserted = items.contains(&it);
+                        queries.push((it, inserted));
+                    }
+                }
+                let ins_words: Vec<u64> = items.iter().map(|it| Filter::defer_insert(it)).collect();
+                let q_items: Vec<Vec<u8>> = queries.iter().map(|q| q.0.clone()).collect();
+                let q_words: Vec<u64> = q_items.iter().map(|it| Filter::defer_insert(it)).collect();
+                let by_item = i % 2 == 0;
+                let items2 = items.clone();
+                let words2 = ins_words.clone();
+                let built = guarded(move || {
+                    let mut f = Filter::new(size);
+                    if by_item {
+                        for it in &items2 {
+                            f.insert(it);
+                        }
+                    } else {
+                        for w in &words2 {
+                            f.deferred_insert(*w);
+                        }
+                    }
+                    f
+                });
+                let mut nblocks = 0usize;
+                let mut fresh_false = 0u64;
+                let mut lens: Vec<usize> = vec![];
+                let obs = match built {
+                    Err(m) => {
+                        fails.push(("bloom-panic".into(), format!("Filter::new({}) + {} inserts panicked: {}", size, items.len(), m)));
+                        "panic".to_string()
+                    }
+                    Ok(f) => {
+                        nblocks = f.approximate_size() / 32;
+                        let f2 = f.clone();
+                        let bytes = match guarded(move || f2.to_bytes()) {
+                            Ok(b) => b,
+                            Err(m) => {
+                                fails.push(("bloom-panic".into(), format!("to_bytes panicked: {}", m)));
+                                vec![]
+                            }
+                        };
+                        if nblocks < 1 || (nblocks as u64) * 256 < size as u64 || bytes.len() != 32 * nblocks {
+                            fails.push(("bloom-size".into(), format!("Filter::new({}): {} blocks, {} bytes", size, nblocks, bytes.len())));
+                        }
+                        // every inserted item checks true
+                        let (_, all) = bloom_checks(&f, &items, &mut fails);
+                        for (j, r) in all.iter().enumerate() {
+                            if *r == Some(false) {
+                                fails.push(("bloom-false-negative".into(), format!("size {} item {} (word {}) inserted, check says false", size, hex(&items[j]), ins_words[j])));
+                                break;
+                            }
+                        }
+                        let (c, cv) = bloom_checks(&f, &q_items, &mut fails);
+                        for (j, r) in cv.iter().enumerate() {
+                            if !queries[j].1 {
+                                if *r == Some(false) {
+                                    fresh_false += 1;
+                                } else {
+                                    rec.count("bloom.filter.false_positive_answers");
+                                }
+                            }
+                        }
+                        let mut line = format!("n={} b={} c={}", nblocks, show_bytes(&bytes), c);
+                        let mut f3 = vec![];
+                        let (r, g) = bloom_parse(&bytes, &mut f3);
+                        fails.extend(f3);
+                        match g {
+                            Some(g) => {
+                                if g != f {
+                                    fails.push(("bloom-roundtrip".into(), format!("size {} {} items: try_from(to_bytes()) is another filter", size, items.len())));
+                                }
+                                let (_, all) = bloom_checks(&g, &items, &mut fails);
+                                if all.iter().any(|r| *r == Some(false)) {
+                                    fails.push(("bloom-false-negative".into(), format!("size {}: an inserted item checks false on the re-parsed filter", size)));
+                                }
+                                let (c2, _) = bloom_checks(&g, &q_items, &mut fails);
+                                line.push_str(&format!(" rt={} c2={}", if g == f { "eq" } else { "ne" }, c2));
+                            }
+                            None => {
+                                if !r.starts_with("panic") {
+                                    fails.push(("bloom-roundtrip".into(), format!("size {}: try_from(to_bytes()) answers {}", size, r)));
+                                }
+                                line.push_str(&format!(" rt={}", r));
+                            }
+                        }
+                        // resized copies of the serialised filter
+                        let l = bytes.len();
+                        for cand in [0usize, 31, 32, 33, 65, l.saturating_sub(32), l.saturating_sub(1), l + 1, l + 31, l + 32, l + 64] {
+                            if !lens.contains(&cand) && cand != l && cand <= 70000 {
+                                lens.push(cand);
+                            }
+                        }
+                        let keep = 3 + rng.below(4) as usize;
+                        rng.shuffle(&mut lens);
+                        lens.truncate(keep);
+                        let mut ts = vec![];
+                        for len in &lens {
+                            let (r, _) = bloom_parse(&bloom_resize(&bytes, *len), &mut fails);
+                            ts.push(r);
+                        }
+                        line.push_str(&format!(" T={}", if ts.is_empty() { "-".to_string() } else { ts.join(",") }));
+                        line
+                    }
+                };
+                let mut distinct = items.clone();
+                distinct.sort();
+                distinct.dedup();
+                rec.count("bloom.filter");
+                rec.count(if by_item { "bloom.filter.insert_by_item" } else { "bloom.filter.deferred_insert" });
+                rec.add("bloom.filter.blocks", nblocks as u64);
+                rec.add("bloom.filter.inserted", items.len() as u64);
+                rec.add("bloom.filter.queries", queries.len() as u64);
+                rec.add("bloom.filter.fresh_queries_answered_false", fresh_false);
+                if items.is_empty() {
+                    rec.count("bloom.filter.nothing_inserted");
+                }
+                if nblocks >= 2 {
+                    rec.count("bloom.filter.two_or_more_blocks");
+                }
+                if BLOOM_SIZES.contains(&size) {
+                    rec.count("bloom.filter.boundary_size");
+                }
+                let req = format!(
+                    "bloom filter {} {} {} {}",
+                    size,
+                    bloom_words(&ins_words),
+                    bloom_words(&q_words),
+                    if lens.is_empty() { "-".to_string() } else { lens.iter().map(|l| l.to_string()).collect::<Vec<_>>().join(",") }
+                );
+                let nontrivial = nblocks >= 2 && distinct.len() >= 2 && fresh_false >= 1;
+                if nontrivial {
+                    rec.count("bloom.filter.nontrivial");
+                }
+                let v = match fails.into_iter().next() {
+                    None => Verdict::Ok,
+                    Some((class, detail)) => Verdict::Fail { class, detail },
+                };
+                rec.case(&req, &obs, v, if nontrivial { Some(fnv(req.as_bytes())) } else { None });
+            }
+        }
+    }
+}
+
+// ------------------------------------------------------------------------------------------------
 
 pub fn run(args: &Args) {
     let mut rec = Recorder::new(&args.out, args.only_case);
@@ -1488,6 +1897,9 @@ pub fn run(args: &Args) {
         }
     }
 
+    // ---- stream 5: the bloom filter from the hash word on -------------------------------------
+    bloom_stream(args, &mut rec, 400 * scale);
+
     // ---- on request only (`d23` after the options): Block::new on bytes no builder made -------
     if args.rest.iter().any(|a| a == "d23") {
         for bytes in [vec![0u8, 0, 0, 0], vec![1, 0, 0, 0], vec![9, 9, 9, 9, 9, 9, 2, 0, 0, 0], vec![0, 0, 0], vec![82, 4, 0, 0, 0, 0, 93, 1, 0, 0, 0], vec![93, 1, 0, 0, 0]] {
@@ -1505,7 +1917,7 @@ pub fn run(args: &Args) {
 
     let _ = std::fs::remove_dir_all(&tmp);
     rec.finish(
-        "four seeded streams: blocks (entry sequences in six styles: short adversarial alphabet incl. the empty key, prefix chains, last-byte neighbours, many versions of one key, long keys/values up to the limits, mixtures; tombstone runs; restart intervals by bytes and pairs incl. 1; every fourth case with refused attempts), tables through SstBuilder (block sizes 0..65536 via the option strings, bloom bits 0..255), SstMultiBuilder (file sizes 0..4096), limit decisions; cursor programs of first/last/next/prev/seek/load with full forward+backward sweeps in half the cases; non-trivial = at least 2 accepted entries (blocks: and a program of at least 3 calls) or at least one refused attempt, multi: at least 2 files; distinct by request text",
+        "five seeded streams: blocks (entry sequences in six styles: short adversarial alphabet incl. the empty key, prefix chains, last-byte neighbours, many versions of one key, long keys/values up to the limits, mixtures; tombstone runs; restart intervals by bytes and pairs incl. 1; every fourth case with refused attempts), tables through SstBuilder (block sizes 0..65536 via the option strings, bloom bits 0..255), SstMultiBuilder (file sizes 0..4096), limit decisions; cursor programs of first/last/next/prev/seek/load with full forward+backward sweeps in half the cases; non-trivial = at least 2 accepted entries (blocks: and a program of at least 3 calls) or at least one refused attempt, multi: at least 2 files; bloom filter (sst::sbbf::Filter from the hash word Filter::defer_insert returns: Filter::new sizes at the block-count boundaries up to 2^24 (thorough: 2^28 and u32::MAX), try_from on bytes no filter wrote, filters of 0..300 items incl. the empty item, repeats and items aimed at one block, queries half inserted half fresh, the bytes re-parsed and cut / extended copies re-parsed): at least 2 blocks, at least 2 distinct inserted items and a fresh query answered false; distinct by request text",
         &[("excluded_configurations", "[\"restart interval 0 (bytes or pairs): outside the property's quantifier; BlockCursor::next never terminates on such a block (DESIGN 6.1)\"]".to_string())],
     );
 }
